@@ -216,11 +216,50 @@ def main(chk):
         if not any(k[0] == 'force' for k in kinds):
             chk.fail_closed.append(tag + ': no explored path applies a force (vacuity)')
     for n in natives.values(): n.close()
+    same_cell_part(chk, quick)
     chk.finish(level='other', explanation=(
         'resolve_contact / apply_contact_forces of the compiled contact model is executed on one node-face pair with all geometry, normals, curvatures, cut-offs and strengths symbolic, '
         'for each listed pair of cell types; the kernel is replaced by its contract. Per feasible path z3 proves: forces on the node and on the three face nodes cancel and no other node is touched; '
         'a force exists only below the largest cut-off and (coupling models) only when the node is on the forbidden side, which is inverted for epithelial-vs-ECM and nucleus-vs-epithelial pairs; '
         'the node is pushed toward the surface point and the reaction toward the node; couplings are mutual, epithelial-only and within the adhesion cut-off.'))
+
+def same_cell_part(chk, quick):
+    """no contact between elements of the same cell, and contacts of different cells are not lost, when the persistent cell ids differ from the
+    list positions (the state after removals / divisions): the whole run() of the model on the two-cell tissue of C06 with the query node symbolic,
+    persistent ids = positions + 1; the hand-over log must contain no same-cell pair and every withheld pair must be outside the cut-off box"""
+    from checks import c06
+    SC = c06.scenarios(True)[0]
+    jobs = []
+    for cm in ((1,) if quick else (1, 2, 0)):
+        for (lo, hi) in c06.split_box(SC.lo, SC.hi, 2):
+            jobs.append((cm, lo, hi))
+    outs = par.pmap(lambda i: c06.run_box(jobs[i][0], SC, jobs[i][1], jobs[i][2], 10000, 1500, 1, 1), len(jobs), procs=12)
+    natives = {}
+    for (cm, lo, hi), o in zip(jobs, outs):
+        chk.paths += o['paths']; chk.queries += o['queries']; chk.solver_s += o['solver_s']; chk.functions |= set(o['functions'])
+        for m_ in o['fail']: chk.fail_closed.append(m_)
+        for (name, status, core, t, detail) in o['obs']:
+            if status != 'cand-dup': chk.ob('whole run, ids ahead of positions/' + name, status, core, t, detail)
+        for cand in o['cands']:
+            p = [cand['model'].get(v, (lo[k] + hi[k]) / 2) for k, v in enumerate(c06.PV)]
+            if cm not in natives:
+                natives[cm] = api.Native(build.build_native(['h_broad.cpp'], contact=cm))
+            rep = {'contact model': cm, 'p': p, 'pair': {'node (cell, index)': cand['node'], 'face (cell, index)': cand['face']}, 'din': SC.din(p), 'iin': SC.iin(1, 1, 1),
+                   'how': 'harness h_c06_broad (/verif/harness/h_broad.cpp) with persistent cell ids = list positions + 1'}
+            if cand.get('same'):
+                # native confirmation: with ids ahead of positions the forces differ from the run with ids = positions (same tissue, same model)
+                q1 = natives[cm].call(c06.ENTRY, SC.din(p), SC.iin(0, 1, 1)); q0 = natives[cm].call(c06.ENTRY, SC.din(p), SC.iin(0, 1, 0))
+                differ = q1.get('status') == 0 and q0.get('status') == 0 and (q1['d'] != q0['d'] or q1['i'] != q0['i'])
+                rep['native'] = 'forces/couplings with ids = positions + 1 %s those with ids = positions' % ('differ from' if differ else 'equal')
+                chk.ob(cand['ob'], 'violated' if differ else 'unknown', True, 0, rep)
+                if differ:
+                    chk.violation('C07/model %d/contact between elements of the same cell' % cm, 'node %r is handed to face %r of its own cell when the persistent ids are ahead of the list positions (p=%r); %s' % (cand['node'], cand['face'], p, rep['native']), rep)
+            else:
+                diff = c06.native_loss(natives[cm], SC, p, 1, 1)
+                chk.ob(cand['ob'], 'violated' if diff else 'unknown', False, 0, {'p': p, 'native': diff})
+                if diff:
+                    chk.violation('C07/model %d/contact of different cells lost when ids are ahead of positions' % cm, 'node %r / face %r withheld at p=%r: %s' % (cand['node'], cand['face'], p, diff), rep)
+    for n_ in natives.values(): n_.close()
 
 def rand_din(rng):
     return ([0.3 + rng.uniform(-.3, .3), 0.3 + rng.uniform(-.3, .3), rng.uniform(-.2, .4)] + [c + rng.uniform(-.05, .05) for c in (0, 0, 0, 1, 0, 0, 0, 1, 0)] +
